@@ -24,10 +24,41 @@ rule("C20.l", "an order takes part whenever its window intersects the horizon: a
               "window (start < horizon end and end > horizon start), never at one end alone", floor=0)
 
 
-@analysis("orderbook", ["C20.a", "C20.b", "C20.c", "C20.f", "C20.l", "C20.m"])
+rule("C20.n", "every order the user lists is an order of the book - one execution variable each: the constructor keeps all rows of the order "
+              "table (no drop_duplicates / unique / groupby / dropna / filtering on the way to self.orders): two identical rows are two "
+              "orders", floor=1)
+
+ROW_REDUCERS = ("drop_duplicates", "unique", "groupby", "dropna", "query", "head", "tail", "sample", "nlargest", "nsmallest", "duplicated", "first", "last",
+                "drop", "where", "mask", "filter", "compress", "take")
+
+
+@analysis("orderbook", ["C20.a", "C20.b", "C20.c", "C20.f", "C20.l", "C20.m", "C20.n"])
 def run(ctx):
     p = ctx.p
     ob = p.cls("OrderBook")
+    # ---- C20.n all rows kept
+    ini = ob.methods.get("__init__")
+    if ini is None or ini.param("orders") is None:
+        ctx.ob("C20.n", "OrderBook", "orders kept", None, "OrderBook.__init__(orders=...) not found")
+    else:
+        bad = None
+        tainted = {"orders"}
+        for st in au.walk_stmts(ini.body):
+            if isinstance(st, (ast.Assign, ast.AugAssign)):
+                uses = [x for x in au.walk_local(st.value) if isinstance(x, ast.Name) and x.id in tainted]
+                if uses:
+                    tainted |= set(n0 for t0 in au.stmt_targets(st) for n0 in (au.target_names(t0) or ([au.base_name(t0)] if au.base_name(t0) not in (None, "self") else [])))
+            for c in au.walk_own(st):
+                if isinstance(c, ast.Call) and au.method_name(c) in ROW_REDUCERS and isinstance(c.func, ast.Attribute) and (au.names_in(c.func.value) & tainted):
+                    bad = bad or (st, c)
+                if isinstance(c, ast.Subscript) and isinstance(c.value, ast.Name) and c.value.id in tainted and isinstance(c.ctx, ast.Load) \
+                        and isinstance(c.slice, (ast.Compare, ast.UnaryOp)) :
+                    bad = bad or (st, c)
+        ctx.ob("C20.n", ini, "all rows of the order table reach self.orders", bad is None,
+               "the order table passes through %s (%s) before it is stored: rows are dropped - an order book in which the same product is quoted "
+               "twice at the same price and volume (two counterparties) loses one of the two orders; 5 execution variables for 7 orders, optimum "
+               "233.7 instead of 377.8 of the formulation with one variable per order" % (au.short(bad[1], 40) if bad else "", p.where(bad[0]) if bad else ""),
+               node=(bad[0] if bad else ini.node), ok_detail="no row-reducing operation on the orders")
     fn = ob.methods.get("setup_optim_problem")
     ctx.require(fn is not None, "OrderBook.setup_optim_problem vanished")
     ff = ctx.flow(fn)
